@@ -146,6 +146,11 @@ class SrcInfo:
             mm = re.match(r'\s*=\s*([^;]+);', src[i:])
             if mm:
                 self.aliases.setdefault(m.group(1), []).append((gens, ' '.join(mm.group(1).split()), rel))
+        # `use path::Name as Alias;` renames act like type aliases for impl headers written with the alias
+        for um in re.finditer(r'(?ms)^[ \t]*(?:pub(?:\([^)]*\))?\s+)?use\s+(.*?);', src):
+            for am in re.finditer(r'([A-Za-z_]\w*)\s+as\s+([A-Za-z_]\w*)', um.group(1)):
+                if am.group(1) != am.group(2) and am.group(2) != '_' and am.group(1)[:1].isupper():
+                    self.aliases.setdefault(am.group(2), []).append(('', am.group(1), rel))
         # impl headers
         for m in re.finditer(r'(?m)^[ \t]*(?:unsafe\s+)?impl\b', src):
             i = m.end(); start_line = line_of(m.start() + len(m.group(0)) - 4)
